@@ -1,6 +1,7 @@
 // Harness for C13: real PollableQueue, producers and the consumer's drain loop as threads under
 // the cooperative scheduler; the case gives the schedule.
 //   K <pushes of producer 1>,<pushes of producer 2>,... S <schedule: 0 = consumer, i = producer i>
+//   J ...  the same with a consumer that takes ONE entry per wake-up and goes back to its event loop
 // After the schedule every producer is run to completion and the consumer is granted until it is
 // parked with the eventfd not readable.  Output: out=<popped values> left=<entries still queued>
 #include <pistache/mailbox.h>
@@ -22,8 +23,9 @@ static bool readable(int fd)
 static std::string handle(const std::string& line)
 {
     auto t = pv::split(line);
-    if (t.size() < 4 || t[0] != "K")
+    if (t.size() < 4 || (t[0] != "K" && t[0] != "J"))
         return "BADCASE";
+    const bool one_per_wakeup = t[0] == "J";
     std::vector<int> pushes;
     {
         std::string cur;
@@ -66,6 +68,8 @@ static std::string handle(const std::string& line)
                         break;
                     out.push_back(e->data());
                     delete e;
+                    if (one_per_wakeup)
+                        break; // back to the event loop with entries possibly still queued
                 }
             }
         });
